@@ -36,8 +36,29 @@ var sites = []site{
 	{regexp.MustCompile(`beacon\.\(\*beacon\)\.Iterate`), []int{6}},
 	{regexp.MustCompile(`beacon\.\(\*beacon\)\.CloneUnorderedTreasures$`), []int{7}},
 	{regexp.MustCompile(`beacon\.\(\*beacon\)\.SortBy`), []int{11}},
-	{regexp.MustCompile(`beacon\.\(\*beacon\)\.(Shift|ReindexExpiration)`), []int{12}},
+	{regexp.MustCompile(`beacon\.\(\*beacon\)\.CountMatching`), []int{14}},
+	{regexp.MustCompile(`beacon\.\(\*beacon\)\.(Shift|SelectExpired)`), []int{15, 12}},
+	{regexp.MustCompile(`beacon\.\(\*beacon\)\.(Reset|SetIsOrdered)$`), []int{16, 11}},
+	{regexp.MustCompile(`beacon\.\(\*beacon\)\.ReindexExpiration`), []int{12}},
 	{regexp.MustCompile(`beacon\.\(\*beacon\)\.GetManyFrom`), []int{13}},
+	// reads made by the SubscribeToEvents callback in a run with removals (prefix "eventA:")
+	{regexp.MustCompile(`^eventA:.*treasure\.\(\*treasure\)\.GetContent`), []int{70}},
+	{regexp.MustCompile(`^eventA:.*treasure\.\(\*treasure\)\.GetCreatedAt$`), []int{71}},
+	{regexp.MustCompile(`^eventA:.*treasure\.\(\*treasure\)\.GetCreatedBy$`), []int{72}},
+	{regexp.MustCompile(`^eventA:.*treasure\.\(\*treasure\)\.GetModifiedAt$`), []int{73}},
+	{regexp.MustCompile(`^eventA:.*treasure\.\(\*treasure\)\.GetModifiedBy$`), []int{74}},
+	{regexp.MustCompile(`^eventA:.*treasure\.\(\*treasure\)\.GetExpirationTime$`), []int{75}},
+	// reads made by the SubscribeToEvents callback (site names get the prefix "event:")
+	{regexp.MustCompile(`^event:.*treasure\.\(\*treasure\)\.GetContent`), []int{60}},
+	{regexp.MustCompile(`^event:.*treasure\.\(\*treasure\)\.GetCreatedAt$`), []int{61}},
+	{regexp.MustCompile(`^event:.*treasure\.\(\*treasure\)\.GetCreatedBy$`), []int{62}},
+	{regexp.MustCompile(`^event:.*treasure\.\(\*treasure\)\.GetModifiedAt$`), []int{63}},
+	{regexp.MustCompile(`^event:.*treasure\.\(\*treasure\)\.GetModifiedBy$`), []int{64}},
+	{regexp.MustCompile(`^event:.*treasure\.\(\*treasure\)\.GetExpirationTime$`), []int{65}},
+	{regexp.MustCompile(`^filecb:.*treasure\.\(\*treasure\)\.BodySetFileName$`), []int{45}},
+	{regexp.MustCompile(`treasure\.\(\*treasure\)\.BodySetFileName$`), []int{47}},
+	{regexp.MustCompile(`treasure\.\(\*treasure\)\.GetFileName$`), []int{46}},
+	{regexp.MustCompile(`swamp\.\(\*swamp\)\.(SaveFunction|deleteHandler)$`), []int{46}},
 	{regexp.MustCompile(`treasure\.\(\*treasure\)\.SetContent`), []int{20, 43}},
 	{regexp.MustCompile(`treasure\.\(\*treasure\)\.BodySetForDeletion$`), []int{21, 39, 41, 43}},
 	{regexp.MustCompile(`treasure\.\(\*treasure\)\.GetContentType$`), []int{22}},
@@ -64,6 +85,10 @@ type rowInfo struct {
 
 var rowsInfo = map[int]rowInfo{
 	1: {"map", true}, 2: {"map", true}, 3: {"map", true}, 4: {"map", false}, 5: {"map", false}, 6: {"map", false}, 7: {"map", false},
+	14: {"map", false}, 15: {"map", true}, 16: {"map", true},
+	70: {"content", false}, 71: {"createdAt", false}, 72: {"createdBy", false}, 73: {"modifiedAt", false}, 74: {"modifiedBy", false}, 75: {"expiration", false},
+	60: {"content", false}, 61: {"createdAt", false}, 62: {"createdBy", false}, 63: {"modifiedAt", false}, 64: {"modifiedBy", false}, 65: {"expiration", false},
+	45: {"fileName", true}, 46: {"fileName", false}, 47: {"fileName", true},
 	8: {"order", true}, 9: {"order", true}, 10: {"order", true}, 11: {"order", true}, 12: {"order", true}, 13: {"order", false},
 	20: {"content", true}, 21: {"content", true}, 22: {"content", false}, 23: {"content", false}, 24: {"content", false},
 	30: {"createdAt", true}, 31: {"createdAt", false}, 32: {"createdBy", true}, 33: {"createdBy", false},
@@ -109,7 +134,7 @@ type race struct {
 
 var frameRe = regexp.MustCompile(`^  (\S.*)\(\)$`)
 
-func parseRaces(stderr string) []race {
+func parseRaces(stderr string, removals bool) []race {
 	var out []race
 	parts := strings.Split(stderr, "WARNING: DATA RACE")
 	for _, p := range parts[1:] {
@@ -123,6 +148,7 @@ func parseRaces(stderr string) []race {
 				break
 			}
 			top, first := "", ""
+			inEvent := strings.Contains(b, "Gateway.SubscribeToEvents")
 			for _, l := range strings.Split(b, "\n")[1:] {
 				m := frameRe.FindStringSubmatch(l)
 				if m == nil {
@@ -139,6 +165,15 @@ func parseRaces(stderr string) []race {
 			if top == "" {
 				top = first
 			}
+			if inEvent && strings.Contains(top, "treasure.(*treasure).Get") {
+				top = "event:" + top
+				if removals {
+					top = "eventA:" + strings.TrimPrefix(top, "event:")
+				}
+			}
+			if strings.Contains(b, "FilePointerCallbackFunction") && strings.HasSuffix(top, "BodySetFileName") {
+				top = "filecb:" + top
+			}
 			tops = append(tops, top)
 		}
 		for len(tops) < 2 {
@@ -150,6 +185,25 @@ func parseRaces(stderr string) []race {
 		out = append(out, race{tops[0], tops[1], p})
 	}
 	return out
+}
+
+var eventRe = regexp.MustCompile(`^(EVENT|ETORN|EDUP) key=(\S+) value=(-?\d+) updatedBy="(-?\d*)"`)
+
+// lock-order inversion found by agent a14: a scan of an index beacon (ShiftMatching, ShiftExpired,
+// CloneUnorderedTreasures, ...) holds the beacon mutex and waits for a record guard while a guard
+// holder (deleteHandler / SaveFunction) waits for that beacon mutex
+func isIndexGuardDeadlock(dump string) bool {
+	a, b := false, false
+	for _, g := range strings.Split(dump, "\n\n") {
+		if strings.Contains(g, "guard.(*guard).StartTreasureGuard") && strings.Contains(g, "beacon.(*beacon).") {
+			a = true
+		}
+		if (strings.Contains(g, "sync.(*RWMutex).Lock") || strings.Contains(g, "sync.(*RWMutex).RLock")) && strings.Contains(g, "beacon.(*beacon).") &&
+			(strings.Contains(g, "(*swamp).deleteHandler") || strings.Contains(g, "(*swamp).SaveFunction")) {
+			b = true
+		}
+	}
+	return a && b
 }
 
 var readRe = regexp.MustCompile(`^(TORN|READ) (\S+) key=(\S+) value=(-?\d+) updatedBy="(-?\d*)"`)
@@ -164,19 +218,26 @@ func main() {
 		os.Exit(2)
 	}
 	type cfg struct {
-		mode string
-		ms   int
+		mode  string
+		phase string
+		ms    int
 	}
-	runs := []cfg{{"mem", 2500}, {"def", 2500}, {"imm", 2500}, {"mem", 2500}}
+	runs := []cfg{{"mem", "A", 2500}, {"imm", "A", 2500}, {"mem", "B", 2500}, {"imm", "B", 2500}, {"def", "A", 1500}}
 	if args.Tier == "thorough" {
 		runs = nil
-		for i := 0; i < 8; i++ {
-			runs = append(runs, cfg{"mem", 8000}, cfg{"def", 8000}, cfg{"imm", 8000})
+		for i := 0; i < 5; i++ {
+			for _, m := range []string{"mem", "def", "imm"} {
+				runs = append(runs, cfg{m, "A", 8000}, cfg{m, "B", 8000})
+			}
 		}
 	}
 	seenPairs := map[string]bool{}
+	phaseOf := map[int]string{}
+	for i, r := range runs {
+		phaseOf[i] = r.phase
+	}
 	for ri, rc := range runs {
-		cmd := exec.Command(bin, "--seed", strconv.FormatUint(args.Seed+uint64(ri), 10), "--ms", strconv.Itoa(rc.ms), "--mode", rc.mode)
+		cmd := exec.Command(bin, "--seed", strconv.FormatUint(args.Seed+uint64(ri), 10), "--ms", strconv.Itoa(rc.ms), "--mode", rc.mode, "--phase", rc.phase)
 		cmd.Env = append(os.Environ(), "GORACE=halt_on_error=0")
 		var so, se bytes.Buffer
 		cmd.Stdout, cmd.Stderr = &so, &se
@@ -196,7 +257,8 @@ func main() {
 			<-done
 		}
 		stdout, stderr := so.String(), se.String()
-		tag := fmt.Sprintf("run %d (%s)", ri, rc.mode)
+		tag := fmt.Sprintf("run %d (%s, phase %s)", ri, rc.mode, rc.phase)
+		run.Hist("phase:" + rc.phase + ":" + rc.mode)
 		run.Hist("child_runs")
 		finished := false
 		for _, l := range strings.Split(stdout, "\n") {
@@ -222,6 +284,24 @@ func main() {
 				}
 				run.Add(common.App("CRead", common.Z(v), common.Z(by)), map[string]interface{}{"run": tag, "reader": m[2], "key": m[3], "value": v, "updatedBy": m[5]}, true)
 				run.Hist("read:" + strings.ToLower(m[1]))
+			case strings.HasPrefix(l, "EVENT ") || strings.HasPrefix(l, "ETORN ") || strings.HasPrefix(l, "EDUP "):
+				m := eventRe.FindStringSubmatch(l)
+				if m == nil {
+					idx := run.Add("(CQuiet 0 0)", map[string]interface{}{"run": tag, "line": l}, false)
+					run.Violate(idx, "every read returns one committed version", "event_unparsable_author", l)
+					continue
+				}
+				v, _ := strconv.ParseInt(m[3], 10, 64)
+				by := int64(-1)
+				if m[4] != "" {
+					by, _ = strconv.ParseInt(m[4], 10, 64)
+				}
+				ctor := "CEvent"
+				if m[1] == "EDUP" {
+					ctor = "CEventDup"
+				}
+				run.Add(common.App(ctor, common.Z(v), common.Z(by)), map[string]interface{}{"run": tag, "reader": "SubscribeToEvents", "kind": m[1], "key": m[2], "value": v, "updatedBy": m[4]}, true)
+				run.Hist("event:" + strings.ToLower(m[1]))
 			case strings.HasPrefix(l, "NILREPLY "):
 				idx := run.Add("(CQuiet 0 0)", map[string]interface{}{"run": tag, "line": l}, false)
 				run.Violate(idx, "no request panics", clean("request_panicked:"+strings.TrimPrefix(l, "NILREPLY ")), tag+": "+l)
@@ -231,7 +311,7 @@ func main() {
 				run.Violate(idx, "no request fails", clean("request_error:"+f[1]), tag+": "+l)
 			}
 		}
-		for _, rc := range parseRaces(stderr) {
+		for _, rc := range parseRaces(stderr, phaseOf[ri] == "A") {
 			a, b, ok := mapPair(rc.fa, rc.fb)
 			key := rc.fa + "|" + rc.fb
 			if !ok {
@@ -267,6 +347,23 @@ func main() {
 			idx := run.Add("(CQuiet 0 0)", map[string]interface{}{"run": tag, "fatal": tail}, false)
 			sig := clean("fatal:" + strings.TrimSpace(strings.TrimPrefix(line, "fatal error:")))
 			run.Violate(idx, "the server process never crashes", sig, tag+": "+tail)
+		} else if strings.Contains(stdout, "\nHANG\n") || strings.HasPrefix(stdout, "HANG\n") || strings.Contains(stdout, "STOPHANG") {
+			dump := stderr
+			if i := strings.Index(dump, "goroutine dump:"); i >= 0 {
+				dump = dump[i:]
+			}
+			sig := "requests_hang"
+			if strings.Contains(stdout, "STOPHANG") {
+				sig = "shutdown_hang"
+			}
+			if isIndexGuardDeadlock(dump) {
+				sig = "deadlock_index_lock_vs_record_guard"
+			}
+			if len(dump) > 60000 {
+				dump = dump[:60000]
+			}
+			idx := run.Add("(CQuiet 0 0)", map[string]interface{}{"run": tag, "stacks": dump}, false)
+			run.Violate(idx, "requests terminate", sig, tag+": the load did not finish; goroutine stacks in the case description")
 		} else if hung {
 			idx := run.Add("(CQuiet 0 0)", map[string]interface{}{"run": tag}, false)
 			run.Violate(idx, "requests terminate", "child_hang", tag+": the load did not finish")
